@@ -51,7 +51,8 @@ def run(prop, tier, replay=None):
         write_ndjson(cases, [replay["case"]])
     build(PACKAGES)
     trace = os.path.join(w, "trace.ndjson")
-    run_driver("drv_distance", ["--cases", cases, "--out", trace, "--reps", 12 if thorough else 2, "--random", 5000 if thorough else 400], w, timeout=3000)
+    run_driver("drv_distance", ["--cases", cases, "--out", trace, "--reps", 12 if thorough else 2, "--random", 5000 if thorough else 400,
+                                   "--candidates", 300 if thorough else 30, "--work", w], w, timeout=3000)
     rep = validate_trace("distance", "DistanceTrace", "DistanceTrace.cfg", trace, w, timeout=3400, heap="6g")
     events = read_ndjson(trace)
     for x in rep["violations"]:
